@@ -13,7 +13,7 @@
 EXTENDS Integers, Sequences, FiniteSets, TLC
 
 MethodLists == {"none", "m0", "m2", "m02", "m20", "m12"}      \* <<>>, <<0>>, <<2>>, <<0,2>>, <<2,0>>, <<1,2>>
-Cmds == {1, 2, 3}
+Cmds == {1, 2, 3, 0, 4, 255}          \* CONNECT, BIND, UDP ASSOCIATE, and bytes that are no command at all
 Atyps == {1, 3, 4, 9}
 DomLens == {0, 1, 255}
 Cuts == {"full", "afterGreeting", "midRequest", "midAddress", "beforePort"}   \* where the client's stream ends
